@@ -25,6 +25,13 @@ META = {"engine": "E2 role pipeline BFS + E1 tamperings",
         "note": "Trusts the commitment table in this file and the BIP65/68/112 spending-condition predicate in checks/psbt_common.py."}
 
 
+# multi_a leaves with a small threshold over many keys: most witness elements are empty signatures, which BIP342 does not
+# charge to the sigops budget.  Only the first `m` keys are the signer's: the rest are another tree's, so they stay empty.
+for _m, _n in ((1, 12), (2, 16), (1, 20), (3, 9)):
+    PC.register(f"tr-multi_a-{_m}-{_n}", lambda _m=_m, _n=_n: "tr(%s,multi_a(%d,%s))" % (PC.NUMS, _m, ",".join(PC.key(0 if j < _m else 1, 86, 30 + j) for j in range(_n))), "tap")
+WIDE = [f"tr-multi_a-{_m}-{_n}" for _m, _n in ((1, 12), (2, 16), (1, 20), (3, 9))]
+
+
 def committed_by(cls, ht, i, field, j, n_in):
     """Does input i's signature (digest class cls, hash type ht) commit to `field` of index j?"""
     base = ht if ht else (1 if cls != "tap" else 0)
@@ -155,6 +162,10 @@ def _combos(ctx):
                         orders = [(0, 1), (1, 0)] if (k in PC.NEEDS_S2 or k == "tr-tree") else [(0, 1)]
                         for order in orders:
                             out.append(((k,), hname, v2, version, lock, seq, order, serving, None))
+        for k in WIDE:
+            for hname in ("DEFAULT", "ALL", "SINGLE|ACP"):
+                for v2 in (False, True):
+                    out.append(((k,), hname, v2, 2, 0, 5, (0, 1), serving, None))
         # pairs: every unordered pair in both orders, one representative per hash type
         pairs = list(itertools.product(K, repeat=2))
         for a, b in pairs:
